@@ -11,7 +11,8 @@ text and with a *tag* saying where the real code took the colour from:
 * `pal cls acc`      — accessor number `acc` of the palette of class `cls` (the object's own palette
                        or a sub-palette obtained with `get_sub_palette`);
 * `enum e v cls acc` — the same, but the chunk goes through the cell cache of enum field type `e`
-                       for the enum value number `v` (`PPEnumFieldType._cache`).
+                       for the enum value number `v` (`PPEnumFieldType._cache`; the number stands for the cache key
+                       `(type(value), value)`).
 
 The layout (texts, line breaks) is in the shape; colours are applied by `paint`, which is all a
 palette can do to the output.  `Chunk` keeps the prefix only: the suffix is `ESC[0m` exactly when the
